@@ -70,7 +70,7 @@ def run(ctx, spec):
                 reg, i = pr.let(e, P, Q)
                 exp[i] = ('%s/P-%s' % (e, rp), one if ident else want, e, not ident, '%s/Q-%s' % (e, rq))
     elif kind == 'history':
-        bs = [rng.randrange(1, r), rng.randrange(1, r)]
+        bs = [gen.dlog(rng), gen.dlog(rng)]
         Qs = [mk(pr, rng, 2, b, rng.choice(PREPS)) for b in bs]
         pps = [pr.let('prep.from', Q)[0] for Q in Qs]
         npt = rng.randrange(4, 9)
@@ -108,7 +108,7 @@ def run(ctx, spec):
             seen[(qi, pi)] = True
             ctx.count('history-calls')
     else:
-        b = rng.randrange(1, r)
+        b = gen.dlog(rng)
         Q = mk(pr, rng, 2, b, rng.choice(PREPS))
         pp = pr.let('prep.from', Q)[0]
         avals = [0] + [rng.randrange(1, r) for _ in range(rng.randrange(3, 6))]
